@@ -34,7 +34,7 @@ PROP = dict(
     prop_targets=["Properties/C13.vo"],
     cases=dict(quick=6000, thorough=40000),
     level="proof",
-    rule="cases drawn from 11 families (random element of the exhaustive space of vectors over {0..4} up to length 6, "
+    rule="cases drawn from 12 families (weights with a total near 0.75*i64::MAX, random element of the exhaustive space of vectors over {0..4} up to length 6, "
          "two-largest-balance-the-rest, random, ties, one dominant, perfect partition exists, zeros, long+loose tolerance, tiny, "
          "large values) x 10 tolerance choices (0, exact d/total, fixed, random), plus a malformed stream (partition length "
          "shorter/longer/empty); thorough tier: the first 19530 cases enumerate EVERY vector over {0..4} of length 1..6 at "
